@@ -4,6 +4,7 @@ import (
 	"fmt"
 	"go/constant"
 	"go/types"
+	"strings"
 
 	"golang.org/x/tools/go/ssa"
 
@@ -453,7 +454,18 @@ func c11PaillierProofEq(c *ctx, rule string, fn *ssa.Function) {
 								}
 							}
 						}
-						if d["param:1"] && sendsFalse {
+						// the divisors are the primes below the bound, as produced by the primes library
+						fromLib := false
+						w := core.NewDepWalker(fn, false)
+						w.Walk(f.X)
+						for v := range w.SeenSet() {
+							if call, isC := v.(*ssa.Call); isC && strings.HasSuffix(core.CalleeName(call), "otiai10/primes.Until") {
+								if k, isK := core.ConstInt(core.Strip(call.Call.Args[0])); isK && k >= 1000 {
+									fromLib = true
+								}
+							}
+						}
+						if d["param:1"] && sendsFalse && fromLib {
 							td = true
 						}
 					}
@@ -461,7 +473,7 @@ func c11PaillierProofEq(c *ctx, rule string, fn *ssa.Function) {
 			}
 		}
 	}
-	c.r.Check(td, rule, fkey(rule, fn, "trial-division"), c.fpos(fn), "divisibility by a small prime makes the trial-division goroutine report false", "no trial-division guard `pkN mod prm == 0 → reject` found")
+	c.r.Check(td, rule, fkey(rule, fn, "trial-division"), c.fpos(fn), "divisibility by a small prime makes the trial-division goroutine report false", "no trial-division guard `pkN mod prm == 0 → reject` over primes.Until(bound >= 1000) found: the modulus is not tried against every prime below the bound (a hand-written prime list cannot be judged here and is reported)")
 	// the consumer rejects on a false from the trial-division channel and compares every x_i
 	c.r.Check(selectJoinOK(fn), rule, fkey(rule, fn, "select-join"), c.fpos(fn), "the accepting return is reached only after one receive per producer channel", "the select loop does not receive once per producer channel before accepting")
 }
